@@ -1447,9 +1447,15 @@ class ExecutionTracer(AbstractExecutionTracer):  # noqa: PLR0904
                     outcome = bool(value1 >= value2)
                     to_true, to_false = (_le_distance, value2, value1), (_lt_distance, value1, value2)
                 case PynguinCompare.IN:
+                    if isinstance(value2, Iterator):
+                        # A membership test would consume elements of the iterator
+                        # that the subject under test is about to look at.
+                        return
                     outcome = bool(value1 in value2)
                     to_true, to_false = (_in_distance, value1, value2), None
                 case PynguinCompare.NOT_IN:
+                    if isinstance(value2, Iterator):
+                        return
                     outcome = bool(value1 not in value2)
                     to_true, to_false = None, (_in_distance, value1, value2)
                 case PynguinCompare.IS:
